@@ -2,7 +2,7 @@
    Only statements; every proof is [exact] of a lemma of Tree/GenProofs.v. *)
 From Coq Require Import List Arith.
 Import ListNotations.
-From Onet Require Import Tree.Gen Tree.GenProofs Tree.GenBigProofs Tree.GenBigShape Corr.C12 Tree.CheckProofs.
+From Onet Require Import Tree.Gen Tree.GenProofs Tree.GenBigProofs Tree.GenBigShape Corr.C12 Tree.CheckProofs Tree.GenBigLevels.
 From Coq Require Import Permutation.
 
 (* The n-ary generator (and hence the binary and star generators) returns, in
@@ -139,3 +139,21 @@ Theorem c12_big_ids_distinct : forall hosts N (idf : nat -> nat),
   exists l, gen_big hosts N (length hosts) = GTree l /\ NoDup (map fst l) /\ NoDup (map idf (map fst l)).
 Proof. exact big_ids_distinct. Qed.
 Print Assumptions c12_big_ids_distinct.
+
+(* levels of the big tree, stated for the TREE: [level_sizes] computes the depth of every node
+   from the parent links and counts the nodes per depth. The sizes that the generator's loop
+   records are exactly these, hence: they sum to the node count, the root level has one node,
+   every level but the deepest holds N times the level above it and the deepest between 1 and
+   N times - levels are filled breadth-first *)
+Theorem c12_big_level_sizes_are_the_trees : forall hosts N nodes l sizes,
+  1 <= N -> 1 <= nodes ->
+  gen_big hosts N nodes = GTree l -> gen_big_sizes hosts N nodes = Some sizes ->
+  level_sizes l = sizes.
+Proof. exact gen_big_level_sizes. Qed.
+Print Assumptions c12_big_level_sizes_are_the_trees.
+
+Theorem c12_big_tree_levels : forall hosts N nodes l,
+  hosts <> [] -> 1 <= N -> 1 <= nodes -> gen_big hosts N nodes = GTree l ->
+  list_sum (level_sizes l) = nodes /\ rshape N (rev (level_sizes l)).
+Proof. exact gen_big_tree_levels. Qed.
+Print Assumptions c12_big_tree_levels.
